@@ -409,6 +409,23 @@ func BulkHists() [][]WriteOut {
 	}
 }
 
+// BackfillHists write a LATER day first and then start the first write-out of an EARLIER day of the same month
+// (DBWriter accepts any order across days): a writer killed there leaves a day directory without metadata
+// that is NOT the last entry of the month listing
+func BackfillHists() [][]WriteOut {
+	return [][]WriteOut{
+		{
+			{ID: 0, Iface: "eth0", TS: 1702080300, NV4: 2, NV6: 0, Drops: 1},
+			{ID: 1, Iface: "eth0", TS: 1701993900, NV4: 1, NV6: 1, Drops: 0},
+		},
+		{
+			{ID: 0, Iface: "eth1", TS: 1702080300, NV4: 1, NV6: 0, Drops: 0},
+			{ID: 1, Iface: "eth0", TS: 1702080300, NV4: 1, NV6: 1, Drops: 2},
+			{ID: 2, Iface: "eth1", TS: 1701993900, NV4: 2, NV6: 0, Drops: 0},
+		},
+	}
+}
+
 // Fixed histories: the boundary cases
 func FixedHists() [][]WriteOut {
 	return [][]WriteOut{
